@@ -81,6 +81,20 @@ DenseEqSparse(o) ==
 \* measures whose definition is symmetric in the two groups (undirected networks)
 Symmetric == {"number_cross_links", "cross_link_density", "cross_average_path_length",
               "nsi_cross_edge_density", "nsi_cross_average_path_length"}
+\* link-weighted variants (link attribute "c" = Defs_Network!RootMat: lengths 1 or 2 fixed by the node
+\* numbers): the same definitions on the weighted shortest-path matrix
+WCtx(G) == [G EXCEPT !.D = WDistMat(G.A, RootMat(G.A, G.dir))]
+WStrength(G, L1, L2, a) == SumN(LAMBDA b : RootMat(G.A, G.dir)[L1[a]][L2[b]], 1, Len(L2))
+DefChecksW(G, o, L1, L2) ==
+  LET n1 == Len(L1)  GW == WCtx(G) IN <<
+  <<"cross_path_lengths(c)", HasM(o, "cross_path_lengths(c)") => CloseMat(o.m["cross_path_lengths(c)"], CrossDist(GW, L1, L2), Tol)>>,
+  <<"internal_path_lengths(c)", HasM(o, "internal_path_lengths(c)") => CloseMat(o.m["internal_path_lengths(c)"], CrossDist(GW, L1, L1), Tol)>>,
+  <<"cross_average_path_length(c)", CrossAPLDefined(GW, L1, L2) => Sca(o, "cross_average_path_length(c)", CrossAvgPathLength(GW, L1, L2))>>,
+  <<"internal_average_path_length(c)", InternalAPLDefined(GW, L1) => Sca(o, "internal_average_path_length(c)", InternalAvgPathLength(GW, L1))>>,
+  <<"cross_closeness(c)", Vec(o, "cross_closeness(c)", n1, LAMBDA a : CrossCloseness(GW, L1, L2, a))>>,
+  <<"internal_closeness(c)", Vec(o, "internal_closeness(c)", n1, LAMBDA a : InternalCloseness(GW, L1, a))>>,
+  <<"local_efficiency(c)", Vec(o, "local_efficiency(c)", n1, LAMBDA a : LocalEfficiency(GW, L1, L2, a))>>,
+  <<"cross_outdegree(c)", Vec(o, "cross_outdegree(c)", n1, LAMBDA a : S * WStrength(G, L1, L2, a))>> >>
 BadSwap(e) == IF e.directed = 1 THEN {} ELSE
    {nm \in Symmetric : HasS(e.obs, nm) /\ HasS(e.swap, nm) /\ ~Close(e.obs.s[nm], e.swap.s[nm], Tol)}
 \* both groups = the whole node set reproduces the single-network measure
@@ -123,6 +137,7 @@ Tags(e) == e.blk \o (IF e.directed = 1 THEN ",directed" ELSE "")
 CtxTable == TLCEval([k \in 1..Len(Trace) |-> Ctx(Trace[k].A, Trace[k].directed, Trace[k].w)])
 AllFails(e, G) ==
   FailsOf(DefChecks(G, e.obs, e.L1, e.L2), "Def|") \cup FailsOf(DefChecks(G, e.swap, e.L2, e.L1), "Def|")
+  \cup FailsOf(DefChecksW(G, e.obs, e.L1, e.L2), "Def|") \cup FailsOf(DefChecksW(G, e.swap, e.L2, e.L1), "Def|")
   \cup (IF e.directed = 0 /\ ~(DenseEqSparse(e.obs) /\ DenseEqSparse(e.swap) /\ DenseEqSparse(e.whole))
         THEN {"DenseEqSparse|cross clustering"} ELSE {})
 Pre(c, T) == {c \o "|" \o x : x \in T}
